@@ -30,10 +30,11 @@ def payload(mode, rid, pad):
         k = pad % 5
         if k == 0: return {'i': rid, 'p': 'x' * (pad % 7)}
         if k == 1: return [rid, 'a\nb', None, True]
-        if k == 2: return f'{rid}:' + 'é\n' * (pad % 3)
+        if k == 2: return f'{rid}:' + 'é\n' * (pad % 3) + ['', '\u2028', '\x85', '\u2029\r'][rid % 4]
         if k == 3: return {'i': rid, 'n': {'k': [1.5, pad]}}
         return [rid]
-    return f'{rid}.' + 'x' * pad
+    # text records may contain every character but '\n': among them the other things str.splitlines() breaks on
+    return f'{rid}.' + 'x' * pad + (['', '', '', '\r', '\x0c', '\u2028', '\x85\u00e9', '\x1d'][(rid + pad) % 8] if mode in ('txt', 'binl') else '')
 
 
 def records_of(mode, op):
